@@ -908,14 +908,20 @@ def overlap_key_rule(ctx, d7):
             keys.add(src(n.left))
     # the sequence the cached value is computed from: inside the loop that fills the stored list, X = SEQ[<loop var>]
     seqs = set()
-    for lp in [n for n in walk_no_nested(f.node) if isinstance(n, ast.For) and isinstance(n.target, ast.Name)]:
+    for lp in [n for n in walk_no_nested(f.node) if isinstance(n, ast.For)]:
         fills = any(isinstance(x, ast.Subscript) and isinstance(x.ctx, ast.Store) and src(x.value) in stored for x in ast.walk(lp))
         if not fills:
             continue
-        for x in ast.walk(lp):
-            if isinstance(x, ast.Assign) and isinstance(x.value, ast.Subscript) and src(x.value.slice) == lp.target.id \
-                    and isinstance(x.value.value, ast.Name):
-                seqs.add(x.value.value.id)
+        # the sequence walked: for i in range(len(SEQ)): X = SEQ[i]  |  for i, X in enumerate(SEQ)  |  for X in SEQ
+        if isinstance(lp.iter, ast.Call) and src(lp.iter.func) == 'enumerate' and len(lp.iter.args) == 1 and isinstance(lp.iter.args[0], ast.Name):
+            seqs.add(lp.iter.args[0].id)
+        elif isinstance(lp.iter, ast.Name):
+            seqs.add(lp.iter.id)
+        elif isinstance(lp.target, ast.Name):
+            for x in ast.walk(lp):
+                if isinstance(x, ast.Assign) and isinstance(x.value, ast.Subscript) and src(x.value.slice) == lp.target.id \
+                        and isinstance(x.value.value, ast.Name):
+                    seqs.add(x.value.value.id)
     if len(keys) != 1 or len(seqs) != 1:
         d7.fail('index_overlap', 'memo-key-shape', 'memo uses keys %s for a value computed from %s' % (sorted(keys), sorted(seqs)), f, f.node)
         return
